@@ -379,7 +379,7 @@ WFDecl(d) ==
   /\ d.p \in PropNames /\ Len(d.v) >= 1 /\ Len(d.sp) = Len(d.v)
   /\ \A i \in 1..Len(d.v) : d.v[i] \in DOMAIN Vals /\ d.sp[i] \in 1..Len(Vals[d.v[i]].sp)
   /\ LET s == Shape(d.p) ks == KindsOf(d) IN
-     \/ Wide(d) /\ s # "custom"
+     \/ Wide(d) /\ s # "?"
      \/ s = "color" /\ Len(ks) = 1 /\ ks[1] = "color"
      \/ s = "len" /\ Len(ks) = 1 /\ ks[1] = "length"
      \/ s = "box" /\ Len(ks) \in 1..4 /\ \A i \in 1..Len(ks) : ks[i] = "length"
